@@ -468,7 +468,10 @@ func genC10(t *rapid.T) any {
 		c.Doc = genC10Doc(t)
 		c.Reexec = rapid.IntRange(2, 3).Draw(t, "sb.reexec")
 		pool := []string{"SETVAR('x', k)", "GETVAR('x') AS g", "SETVAR('y', GETVAR('x'))", "GETVAR('nokey') AS n", "CONSTANT('pi') AS c", "REPORT('note')", "REPORT_WHEN(k > 1, 'big')", "RAISE_WHEN(k > 100, 'never')",
-			"ONCE.GETVAR('x') AS og", "GLOBAL.vf_id(k) AS gl", "ONCE.vf_id(k) AS oi", "k", "SETVAR(s, v)", "SETVAR(NULL, 1)", "GETVAR(k) AS gk", "TIMESTAMP() AS ts"}
+			"ONCE.GETVAR('x') AS og", "GLOBAL.vf_id(k) AS gl", "ONCE.vf_id(k) AS oi", "k", "SETVAR(s, v)", "SETVAR(NULL, 1)", "GETVAR(k) AS gk", "TIMESTAMP() AS ts",
+			// a qualified call among the arguments of a call of the same function under the same qualifier (memo / lock re-entry)
+			"ONCE.vf_id(ONCE.vf_id(k)) AS oo", "GLOBAL.vf_id(GLOBAL.vf_id(1)) AS gg", "ONCE.CONCAT(ONCE.CONCAT('v', 1), '.', 0) AS oc", "ONCE.vf_id(GLOBAL.vf_id(k)) AS ogl",
+			"ASYNC.vf_id(ASYNC.vf_id(k)) AS aa", "SPIN.vf_id(SPIN.vf_id(k))", "ONCE.vf_id((SELECT ONCE.vf_id(1) AS z FROM dual)) AS osq", "ONCE.GETVAR(ONCE.GETVAR('x')) AS ogg", "ONCE.vf_id(ONCE.vf_id(ONCE.vf_id(2))) AS ooo"}
 		n := rapid.IntRange(1, 4).Draw(t, "sb.n")
 		perm := rapid.Permutation(pool).Draw(t, "sb.items")
 		from := "t"
